@@ -200,10 +200,13 @@ def linked_check(repo, workdir):
                'theorems': ['regenerated_decoder_is_model : forall o b, run (genL_msg_read o) b = m_decode o b',
                             'regenerated_avps_is_model', 'G_C01_total', 'G_C02_no_contract_violation', 'G_C05_refines_spec'] +
                            (['regenerated_encoder_is_model : forall v p, genL_encode v p = m_encode v p', 'G_C03_ctrl_roundtrip',
-                             'G_C04_data_roundtrip', 'G_C06_encode_refines_spec'] if 'regenerated_encoder_is_model' in text else []),
+                             'G_C04_data_roundtrip', 'G_C06_encode_refines_spec', 'G_C07_lengths_exact', 'G_C08_suffix', 'G_C08_back_to_back',
+                             'G_C09_prefix_independent', 'G_C10_reencode_ctrl', 'G_C14_monotone', 'G_C15_err_nonempty']
+                            if 'regenerated_encoder_is_model' in text else []),
                'meaning': 'the decoder and the encoder regenerated from the current source text, with every callee regenerated too, equal the '
-                          'Model decoder / encoder on every input; C01, C02, C05 and the round trips C03, C04 and the layout C06 are re-proved '
-                          'of the regenerated programs'}
+                          'Model decoder / encoder on every input; C01, C02, C05, the round trips C03, C04, the layout C06, exact lengths C07, '
+                          'framing C08, prefix independence C09, re-encoding C10, option monotonicity C14 and non-empty error lists C15 are '
+                          're-proved of the regenerated programs'}
         json.dump(res, open(cp, 'w'))
     elif any(x in out for x in transient) or out == 'timeout':
         res = {'status': 'not checked (coqc could not run)'}
